@@ -269,12 +269,14 @@ def _seg_match(it: Item, seg: str) -> bool:
     seg = seg.strip()
     kind, _, rest = seg.partition(" ")
     rest = rest.strip()
+    if seg.startswith("impl<"):
+        kind, rest = "impl", seg[4:]
     if kind == "impl":
         if it.kind != "impl":
             return False
         if rest.startswith("~"):
             return re.search(rest[1:], it.header) is not None
-        return squeeze(it.header) == squeeze("impl " + rest) or squeeze(_strip_generics(it.header)) == squeeze("impl " + rest)
+        return squeeze(it.header) == squeeze("impl" + rest) or squeeze(_strip_generics(it.header)) == squeeze("impl" + rest)
     if kind == "macro_rules":
         return it.kind == "macro_rules" and it.name == rest
     return it.kind == kind and it.name == rest
